@@ -427,28 +427,45 @@ def formula_purity(chk, P):
     cx = P.cls("atsim.potentials.config._cexprtk_potential_function", "_Cexptrk_Potential_Function")
     call = cx.lookup("__call__")
     site = call.site()
-    # 1. the binding loop is unconditional and covers all parameters
-    body = call.node.body
-    loops = [s for s in body if isinstance(s, ast.For)]
-    ok = False
-    for lp in loops:
-        stores = [n for n in ast.walk(lp) if isinstance(n, ast.Assign) and any(isinstance(t, ast.Subscript) and "variables" in ast.unparse(t.value)
-                                                                                 for t in n.targets)]
-        it = ast.unparse(lp.iter)
-        if stores and "zip" in it and "parameter_names" in it and "args" in it and not any(isinstance(n, ast.If) for n in ast.walk(lp)):
-            ok = True
-    chk.ob("C12.O4", "__call__ binds every (parameter name, argument) pair in a top-level loop with no condition", ok, site=site,
-           found=[ast.unparse(l.iter) for l in loops], expect="for (pn, v) in zip(parameter_names, args): variables[pn] = v",
-           key="C12.O4|unconditional-binding")
-    # 2. no instance state written in __call__ apart from the lazily created expression
-    stores = set()
-    for node in ast.walk(call.node):
-        if isinstance(node, (ast.Assign, ast.AugAssign)):
-            for t in (node.targets if isinstance(node, ast.Assign) else [node.target]):
-                if isinstance(t, ast.Attribute) and isinstance(t.value, ast.Name) and t.value.id == "self":
-                    stores.add(t.attr)
-    chk.ob("C12.O4", "__call__ assigns no instance attribute other than the lazily parsed expression", stores <= {"_expression"}, site=site,
-           found=sorted(stores), expect=["_expression"], key="C12.O4|no-call-state")
+    # 1. whatever the previous calls were, the expression is evaluated with exactly this call's arguments bound to the
+    #    parameter names: a sequence that changes one argument at a time, repeats calls and interleaves a second form
+    Ib = F.make_interp(P)
+    M.install_cexprtk(Ib)
+    from .c09 import _form_tuple as _ft1
+    fa = Ib.instantiate(cx, [_ft1(Ib, P, "f", ["r", "A", "n"], "A*r^n")], {}, None)
+    fb = Ib.instantiate(cx, [_ft1(Ib, P, "g", ["r", "A", "n"], "A+r+n")], {}, None)
+    seq = [(fa, ("r0", "a0", "n0")), (fa, ("r1", "a0", "n0")), (fa, ("r1", "a1", "n0")), (fb, ("r9", "a9", "n9")),
+           (fa, ("r1", "a1", "n1")), (fa, ("r1", "a1", "n1")), (fb, ("r1", "a9", "n9")), (fa, ("r0", "a0", "n0"))]
+    bad = []
+    for idx, (fn, args) in enumerate(seq):
+        Ib.call(fn, [Num(ep.sym(x)) for x in args], {})
+        ex = M.expression_of(fn)
+        last = ex.evaluations[-1] if ex is not None and ex.evaluations else {}
+        got = tuple(repr(Ib.num(last[k])) if k in last else None for k in ("r", "A", "n"))
+        if got != args:
+            bad.append("call %d %s%r evaluated with %r" % (idx + 1, "f" if fn is fa else "g", args, got))
+    chk.ob("C12.O4", "in a sequence of %d calls (one argument changed at a time, repeats, a second form in between) every evaluation sees "
+                     "exactly that call's arguments" % len(seq), not bad, site=site, found=bad[:3] or None,
+           expect="r, A, n bound to the call's own arguments", key="C12.O4|unconditional-binding")
+    # 2. no instance state written in __call__ apart from the lazily created expression: the first call may add attributes
+    #    that hold the parsed expression (a write-once cache); a second call adds and changes nothing
+    I0 = F.make_interp(P)
+    M.install_cexprtk(I0)
+    from .c09 import _form_tuple as _ft
+    f0 = I0.instantiate(cx, [_ft(I0, P, "f", ["r", "A"], "A*r")], {}, None)
+
+    def snap(inst):
+        return dict((k, v.key()) for k, v in inst.attrs.items())
+    s0 = snap(f0)
+    I0.call(f0, [Num(ep.sym("r1")), Num(ep.sym("a1"))], {})
+    s1 = snap(f0)
+    I0.call(f0, [Num(ep.sym("r2")), Num(ep.sym("a2"))], {})
+    s2 = snap(f0)
+    changed1 = sorted(k for k in s1 if s0.get(k) != s1[k])
+    only_expr = all(isinstance(f0.attrs[k], PyObjV) and isinstance(f0.attrs[k].obj, M.Expression) for k in changed1)
+    chk.ob("C12.O4", "__call__ assigns no instance attribute other than the lazily parsed expression, and only on the first call",
+           only_expr and s1 == s2, site=site, found={"first call": changed1, "second call": sorted(k for k in s2 if s1.get(k) != s2[k])},
+           expect="first call: the parsed expression only; second call: nothing", key="C12.O4|no-call-state")
     # 3. abstract evaluation: two different forms, interleaved calls, shared sub-form with different arguments
     I = F.make_interp(P)
     M.install_cexprtk(I)
@@ -463,8 +480,8 @@ def formula_purity(chk, P):
            not ep.equal(vals[0], vals[2])[0], site=site, found=vals[2], expect="value for (r, a1, n3)", key="C12.O4|last-arg-rebound")
     chk.ob("C12.O4", "repeating a call after other calls gives the value of the first time (history independent)",
            ep.equal(vals[0], vals[3])[0], site=site, found=vals[3], expect=vals[0], key="C12.O4|history-independent")
-    tf, tg = f.attrs["_local_symbol_table"].obj, g.attrs["_local_symbol_table"].obj
-    chk.ob("C12.O4", "each form has its own symbol table and expression", tf is not tg and f.attrs["_expression"].obj is not g.attrs["_expression"].obj,
+    tf, tg = M.symbol_table_of(f), M.symbol_table_of(g)
+    chk.ob("C12.O4", "each form has its own symbol table and expression", tf is not tg and M.expression_of(f) is not M.expression_of(g),
            site=cx.lookup("__init__").site(), found="shared" if tf is tg else "separate", expect="separate", key="C12.O4|per-instance")
 
 
